@@ -59,8 +59,14 @@ class GraphServer(UDSServer):
     """
 
     def __init__(self, sessions: list[int], edges: set[tuple[int, int]], realisation: str = "A",
-                 nrc_salt: int = 0, cap: int = 10**9, mutant: str | None = None) -> None:
+                 nrc_salt: int = 0, cap: int = 10**9, mutant: str | None = None,
+                 reset_mode: str = "absent") -> None:
         super().__init__()
+        # ECUReset (only asked for with the scanner's --reset option):
+        #   "absent"  not answered, nothing happens          "pos"    positive answer, back to the default session
+        #   "neg"     refused (conditionsNotCorrect)         "silent" performed (default session) but not answered
+        self.reset_mode = reset_mode
+        self.n_resets = 0
         self.sessions = sorted(sessions)
         self.edges = set(edges)
         self.realisation = realisation
@@ -115,6 +121,19 @@ class GraphServer(UDSServer):
         if self.n_req > self.cap:
             raise RequestCapReached()
         before = self.state.session
+        if request.service_id == 0x11 and self.reset_mode != "absent":
+            self.n_other += 1
+            self.n_resets += 1
+            if self.reset_mode == "neg":
+                return service.NegativeResponse(0x11, UDSErrorCodes.conditionsNotCorrect)
+            # a performed reset is logged as a pseudo entry (requested = 0) so that the ground truth stays a chain
+            self.log.append({"s": 0, "f": before, "ok": 1, "a": 1, "nrc": 0})
+            if self.reset_mode == "silent":
+                self.state.reset()
+                return None
+            response = service.ECUResetResponse(request.pdu[1] & 0x7F)
+            await self.update_state(request, response)
+            return response
         response = await super().respond(request)
         after = self.state.session
         if request.service_id == DSC and len(request.pdu) >= 2:
@@ -191,11 +210,15 @@ def run_scan(case: dict[str, Any]) -> dict[str, Any]:
     sessions = list(case["sessions"])
     edges = {(int(f), int(t)) for f, t in case["E"]}
     cap = request_cap(len(sessions), case["depth"])
-    srv = GraphServer(sessions, edges, case.get("real", "A"), case.get("salt", 0), cap, case.get("mutant"))
+    srv = GraphServer(sessions, edges, case.get("real", "A"), case.get("salt", 0), cap, case.get("mutant"),
+                      case.get("reset_mode", "absent"))
     st = TCPUDSServerTransport(srv, TargetURI("tcp-lines://127.0.0.1:20162"))
     kw: dict[str, Any] = {}
     if case["skip"]:
         kw["skip"] = [int(x) for x in case["skip"]]
+    if case.get("reset") is not None:
+        kw["reset"] = int(case["reset"])
+        kw["timeout"] = 1.0
     cfg = SessionsScannerConfig(
         target="tcp-lines://127.0.0.1:20162", depth=int(case["depth"]), thorough=bool(case["thorough"]),
         dumpcap=False, sleep=int(case.get("sleep", 0)), tester_present=bool(case.get("tp", True)),
